@@ -154,6 +154,16 @@ func (e *explorer) account(x vsched.ExecResult, cost int, prefix []int, counted 
 		}
 	}
 	if x.Outcome == vsched.Diverged {
+		if os.Getenv("VERIF_DEBUG_DIVERGE") != "" && r.Diverged < 3 {
+			var picks []int
+			for _, c := range x.Choices {
+				picks = append(picks, c.Pick)
+			}
+			if len(picks) > 300 {
+				picks = picks[:300]
+			}
+			fmt.Fprintf(os.Stderr, "DIVERGED %s: %v PICKS %v\n", e.sc.Name, x.Stuck, picks)
+		}
 		r.Diverged++
 		return
 	}
@@ -492,6 +502,39 @@ func replay(su Suite, scs []Scenario, path string) int {
 		cfg := sc.Cfg
 		cfg.Trace = true
 		x := vsched.RunOne(&cfg, doc.First.Replay.Choices, nil, sc.Body)
+		if os.Getenv("VERIF_DEBUG_TWICE") != "" {
+			// determinism probe: the same schedule a second time in the same process must give the same trace
+			y := vsched.RunOne(&cfg, doc.First.Replay.Choices, nil, sc.Body)
+			n := len(x.Trace)
+			if len(y.Trace) < n {
+				n = len(y.Trace)
+			}
+			d := -1
+			for i := 0; i < n; i++ {
+				if x.Trace[i] != y.Trace[i] {
+					d = i
+					break
+				}
+			}
+			fmt.Printf("TWICE: lengths %d / %d, choices %d / %d, first difference at trace line %d\n", len(x.Trace), len(y.Trace), len(x.Choices), len(y.Choices), d)
+			for i := range x.Choices {
+				if i < len(y.Choices) && (x.Choices[i].N != y.Choices[i].N || x.Choices[i].Kind != y.Choices[i].Kind) {
+					fmt.Printf("  choice %d: N %d / %d kind %v / %v\n", i, x.Choices[i].N, y.Choices[i].N, x.Choices[i].Kind, y.Choices[i].Kind)
+					break
+				}
+			}
+			if len(x.Choices) > 272 {
+				fmt.Printf("  choice 272: N=%d kind=%v ; choice 271: N=%d kind=%v\n", x.Choices[272].N, x.Choices[272].Kind, x.Choices[271].N, x.Choices[271].Kind)
+			}
+			if d >= 0 {
+				for i := d - 6; i < d+6 && i < n; i++ {
+					if i >= 0 {
+						fmt.Printf("  [%d] A: %s\n  [%d] B: %s\n", i, x.Trace[i], i, y.Trace[i])
+					}
+				}
+			}
+			return 0
+		}
 		for _, l := range x.Trace {
 			fmt.Println("  ", l)
 		}
